@@ -133,27 +133,27 @@ def main():
     if ck.replay:
         body = json.load(open(os.path.join(VERIF, ck.replay) if not os.path.isabs(ck.replay) else ck.replay))
         if "replay" in body or "case" in body:
-            run_case(ck, body.get("case") or body["replay"]["case"])
+            ck.guard(run_case, ck, body.get("case") or body["replay"]["case"])
         ck.finish(rule="replay of one recorded case")
     ck.lean_obligations(["CvProps.C01", "CvProps.C17"], THEOREMS)
     # corpus first
     corpus = json.load(open(os.path.join(VERIF, "harness", "corpus", "C01.json")))
     for case in corpus:
-        run_case(ck, case)
+        ck.guard(run_case, ck, case)
         ck.count("corpus")
-    n_defs = 60 if not ck.thorough else 1200
-    cap = 1500 if not ck.thorough else 30000
+    n_defs = 60 if not ck.thorough else 350
+    cap = 1500 if not ck.thorough else 8000
     for _ in range(n_defs):
         if ck.enough():
             break
         base = gen_case(ck, cap)
-        run_case(ck, base)
+        ck.guard(run_case, ck, base)
         # the same definition under other internal configurations must give the same canonical answer
         gd = graphs.GDef.from_json(base["gd"])
         for _ in range(2 if not ck.thorough else 4):
             other = dict(base, cfg=graphs.gen_cfg(ck.rng, gd))
             other["opts"] = dict(base["opts"], disable_batching=ck.rng.random() < 0.3, return_all_edges=ck.rng.random() < 0.2)
-            run_case(ck, other)
+            ck.guard(run_case, ck, other)
     ck.assumptions = [
         "hash injective on the explored set (hook H2 reports any equal-hash/different-state event; none tolerated)",
         "orbits capped for the correspondence; the theorems are unbounded",
@@ -165,4 +165,6 @@ def main():
 
 
 if __name__ == "__main__":
-    main()
+    from cv.core import run_main
+
+    run_main(main)
